@@ -166,6 +166,7 @@ type MemberInfo struct {
 	Type       reflect.Type
 	Index      []int
 	CaseIgnore bool
+	CaseStrict bool
 }
 
 // TagName splits a `json` tag into its name part and the option list (unparsed words).
@@ -231,7 +232,7 @@ func Members(t reflect.Type, rawValue reflect.Type) (ms []MemberInfo, fallback *
 			if name == "" {
 				name = sf.Name
 			}
-			ms = append(ms, MemberInfo{Name: name, Type: sf.Type, Index: idx, CaseIgnore: hasOpt(opts, "case:ignore")})
+			ms = append(ms, MemberInfo{Name: name, Type: sf.Type, Index: idx, CaseIgnore: hasOpt(opts, "case:ignore"), CaseStrict: hasOpt(opts, "case:strict")})
 		}
 	}
 	walk(t, nil)
@@ -468,6 +469,9 @@ type TypeCfg struct {
 	Leaves   []string // scalar leaves (default: int string bool any float64)
 	MapKeys  []string // key types for maps (default: string)
 	Fallback bool     // structs may get an embedded map fallback
+	CaseTags bool     // fields may carry case:ignore / case:strict
+	// FallbackTypes overrides the type of the embedded fallback field (default: map[string]<random>).
+	FallbackTypes []string
 }
 
 var fieldNames = []string{"A", "B", "C", "D", "E"}
@@ -514,10 +518,20 @@ func RandStruct(r *rand.Rand, c *TypeCfg, depth int) string {
 		if r.IntN(6) == 0 {
 			tag = `json:"` + strings.ToLower(fieldNames[i]) + `x"`
 		}
+		if c.CaseTags && r.IntN(4) == 0 {
+			if tag == "" {
+				tag = `json:"` + fieldNames[i] + `"`
+			}
+			tag = tag[:len(tag)-1] + [...]string{",case:ignore", ",case:ignore", ",case:strict"}[r.IntN(3)] + `"`
+		}
 		fs = append(fs, Field(false, fieldNames[i], RandType(r, c, depth), tag))
 	}
 	if c.Fallback && r.IntN(5) == 0 {
-		fs = append(fs, Field(false, "Rest", "map[string]"+RandType(r, c, depth+1), `json:",embed"`))
+		ft := "map[string]" + RandType(r, c, depth+1)
+		if len(c.FallbackTypes) > 0 {
+			ft = c.FallbackTypes[r.IntN(len(c.FallbackTypes))]
+		}
+		fs = append(fs, Field(false, "Rest", ft, `json:",embed"`))
 	}
 	return Struct(fs...)
 }
